@@ -3,7 +3,7 @@
     (printed by [Check]).  [holds s c a m]: connection c is subscribed to mailbox
     (a, m) (it is bound to app a and its handle is m). *)
 From MW Require Import Base Store Monad Usage Server Websocket Service Findings Inv Obs
-     ProtoFacts StepFacts MbFactsA LifeFacts Inst_Params.
+     ProtoFacts StepFacts MbFactsA LifeFacts Inst_Params CrashLife.
 Local Open Scope list_scope.
 
 (** in every well-formed state: an `add` on a connection holding (a, m) is stored
@@ -46,6 +46,25 @@ Print Assumptions C02_open_subscribes.
 
 
 (** three connections of two sides on one mailbox: an add reaches all three once *)
+(** ** every event, crashes at any commit boundary included (CrashLife.v): a subscription
+    begins only by the connection's own served open; it ends only by its own close, its
+    disconnect, an internal failure of its own command, the deletion of the mailbox, a
+    restart -- or a crash (after which nobody is subscribed to anything) *)
+Theorem C02_subscription_begins_only_by_open_all : ltac:(let t := type of holds_begins_only_by_open_all in exact t).
+Proof. exact holds_begins_only_by_open_all. Qed.
+Check C02_subscription_begins_only_by_open_all.
+Print Assumptions C02_subscription_begins_only_by_open_all.
+
+Theorem C02_subscription_ends_only_by_all : ltac:(let t := type of holds_ends_only_by_all in exact t).
+Proof. exact holds_ends_only_by_all. Qed.
+Check C02_subscription_ends_only_by_all.
+Print Assumptions C02_subscription_ends_only_by_all.
+
+Theorem C02_crash_holds_nothing : ltac:(let t := type of crash_holds_nothing in exact t).
+Proof. exact crash_holds_nothing. Qed.
+Print Assumptions C02_crash_holds_nothing.
+
+
 Example C02_nonvacuous :
   let cfg := gen_cfg true false None in
   let o := mkOracle None (mkAO None []) in
